@@ -1,4 +1,5 @@
 import GBS.Model.Parse
+import GBS.Lemmas.Lossless
 /-!
 # C02 — parsing recovers the structure the notation denotes
 
@@ -8,6 +9,11 @@ import GBS.Model.Parse
   after a closed branch, adjacent across `)(`, to any nesting depth.  Proved as a simulation between two machines over
   lexeme sequences, and `pushPop_eq_steps` shows that the model's `pushPop` (which the correspondence check ties to
   token.py) *is* the implementation machine on the parentheses of a segment.
+* `C02_token_lossless`: for **every** text that `parseToken` accepts (any length, any nesting, any judgement of bracket
+  atoms) the parsed element list spells the stripped text again, character for character and in order, once each
+  descriptor element is replaced by the text it was cut from; that text is exactly what `parseDesc` was run on, with the
+  descriptors numbered in written order; and the atom list is the list of atom elements in written order.  Nothing is
+  lost, duplicated or reordered by the scanner (first loop) or by the cutting of descriptors (second loop).
 * `C02_weight_law`: a descriptor without weight has weight 1; a list weight's total is the sum of the list.
 The character-level scanner, the splitting of stochastic objects / molecules / systems and the number syntax are tied to
 the code by the correspondence check only (fallback announced in DESIGN.md 7/C01).
@@ -300,5 +306,39 @@ example : (match (({} : Impl).run [.atom, .op, .atom, .cl, .op, .desc, .cl, .ato
     | some i => i.boundAtom 0 == some 0 && i.na == 3 | none => false) = true := by decide
 example : (match (({} : Spec).run [.atom, .op, .atom, .cl, .op, .desc, .cl, .atom]) with
     | some s => s.edges == [(.a 0, .a 1), (.a 0, .d 0), (.a 0, .a 2)] | none => false) = true := by decide
+
+/-- **C02 (order and kind of elements; atoms; descriptor texts).**  The token parser is lossless: see the module text. -/
+theorem C02_token_lossless (valid : Str → Bool) (text : Str) (offset resId : Nat) (t : PToken)
+    (h : parseToken valid text offset resId = .ok t) :
+    ∃ raws : List Str, raws.length = t.descs.length ∧ rawText raws t.els = strip text ∧
+      (∀ k r, raws[k]? = some r → ∃ pre atom pd, parseDesc r (k + offset) pre atom = .ok pd ∧ t.descs[k]? = some pd) ∧
+      t.atoms = t.els.filterMap El.atom? :=
+  parseToken_lossless valid text offset resId t h
+
+/-- the printed token is the same element list with each descriptor printed canonically -/
+theorem C02_print_is_raw_with_canonical_descriptors (t : PToken) (ext : Bool) :
+    printToken t ext = strip (rawText (t.descs.map (printDesc · ext)) t.els) := by
+  unfold printToken rawText
+  congr 2
+  apply List.map_congr_left
+  intro e _
+  cases e with
+  | atom a => rfl
+  | str s => rfl
+  | bond k =>
+    simp only [elText, elRaw, List.getD_eq_getElem?_getD, List.getElem?_map]
+    cases t.descs[k]? <;> rfl
+
+-- non-vacuity: `[<]CC(C)([>])C` passes both loops: 2 descriptors, 4 atoms, the second descriptor bound to atom 1
+-- (`scan` is compiled by well-founded recursion and does not reduce in the kernel: its run is shown by rewriting)
+example : scan (fun _ => true) 16 ['[','<',']','C','C','(','C',')','(','[','>',']',')','C'] [] [] =
+    .ok [El.str ['[','<',']'], El.atom ['C'], El.atom ['C'], El.str ['('], El.atom ['C'],
+         El.str [')','(','[','>',']',')'], El.atom ['C']] := by
+  simp [scan, scan.scanOne, isDoubleAtom, isSingleAtom, doubleLetterAtoms, singleLetterAtoms, find, findFrom, isPrefix,
+    hasDescChar]
+example : (match bind 0 50 { els := [El.str ['[','<',']'], El.atom ['C'], El.atom ['C'], El.str ['('], El.atom ['C'],
+         El.str [')','(','[','>',']',')'], El.atom ['C']] } with
+    | .ok s => s.descs.length == 2 && s.atoms.length == 4 && (s.descs.map (·.d.atom)) == [0, 1] | .error _ => false) = true := by
+  decide +kernel
 
 end GBS.P
